@@ -17,8 +17,14 @@ class ListenerBoom(Exception):
     pass
 
 
-def event_msg(body: bytes) -> bytes:
-    return b"EVENT/1.0 200 OK\r\nContent-Type: application/hap+json\r\nContent-Length: %d\r\n\r\n" % len(body) + body
+HDR = {"title": (b"Content-Type", b"Content-Length"), "lower": (b"content-type", b"content-length"), "upper": (b"CONTENT-TYPE", b"CONTENT-LENGTH"),
+       "mixed": (b"Content-type", b"Content-length")}
+
+
+def event_msg(body: bytes, hdr="title") -> bytes:
+    # header names are case-insensitive (RFC 7230 3.2); accessories do not all spell them the same way
+    ct, cl = HDR[hdr]
+    return b"EVENT/1.0 200 OK\r\n" + ct + b": application/hap+json\r\n" + cl + b": %d\r\n\r\n" % len(body) + body
 
 
 def run_case(case, R):
@@ -31,6 +37,10 @@ def run_case(case, R):
     async def main(loop):
         w = IpWorld(loop, k=case.get("k", 0))
         p = w.pairing
+        hdr = case.get("hdr", "title")
+        if hdr != "title":
+            R.cls("hdr:" + hdr)
+            w.acc.header_names = hdr if hdr in ("lower", "upper") else "title"
         wanted = set()
         listeners = []          # dict(id, kind, alive, log, remove)
         polling_fallback = False
@@ -58,7 +68,7 @@ def run_case(case, R):
 
         async def check(where):
             nonlocal seen_conns, polling_fallback
-            await vtime.settle(loop)
+            await vtime.settle(loop, 5000)
             # new secure sessions since the last check
             conns = [c for c in w.acc.conns if c.verified_at is not None]
             while seen_conns < len(conns):
@@ -86,7 +96,7 @@ def run_case(case, R):
             add_listener("normal")
             # first connection
             t = asyncio.ensure_future(p.list_accessories_and_characteristics())
-            await vtime.settle(loop)
+            await vtime.settle(loop, 5000)
             if not p.is_connected:
                 raise AssertionError("harness: initial connection failed")
             on_connected_expect()
@@ -96,7 +106,12 @@ def run_case(case, R):
             for k, op in enumerate(ops):
                 name = op[0]
                 where = f"after op {k} {op!r:.120}"
-                if name == "sub":
+                if name == "subbig":
+                    # a subscription set whose request does not fit one encrypted frame (1024 bytes of plaintext)
+                    ids = [(op[1], 100 + j) for j in range(op[2])]
+                    wanted |= set(ids)
+                    await asyncio.wait_for(p.subscribe(ids), 45)
+                elif name == "sub":
                     ids = [tuple(x) for x in op[1]]
                     drop_during = len(op) > 2 and op[2] in ("fin", "reset")
                     if drop_during and cur() is not None and not polling_fallback:
@@ -117,7 +132,7 @@ def run_case(case, R):
                         polling_fallback = True      # the exemption written into the statement
                         R.cls("polling-fallback")
                         await asyncio.sleep(1)       # let it reconnect
-                        await vtime.settle(loop)
+                        await vtime.settle(loop, 5000)
                         if p.is_connected:
                             on_connected_expect()
                 elif name == "offsub":
@@ -127,7 +142,7 @@ def run_case(case, R):
                     c = cur()
                     if c is not None:
                         c.close("fin")
-                    await vtime.settle(loop)
+                    await vtime.settle(loop, 5000)
                     await asyncio.sleep(0.5)
                     wanted |= set(ids)
                     if not p.is_connected:
@@ -136,7 +151,7 @@ def run_case(case, R):
                     await asyncio.sleep(op[2])
                     w.net.connect_policy = lambda host, n: "accept"
                     await asyncio.sleep(70)          # one back-off period at most
-                    await vtime.settle(loop)
+                    await vtime.settle(loop, 5000)
                     if p.is_connected:
                         on_connected_expect()
                     else:
@@ -167,9 +182,9 @@ def run_case(case, R):
                     if c is None:
                         continue
                     c.close(op[1])
-                    await vtime.settle(loop)
+                    await vtime.settle(loop, 5000)
                     await asyncio.sleep(op[2] if len(op) > 2 else 1)
-                    await vtime.settle(loop)
+                    await vtime.settle(loop, 5000)
                     if p.is_connected:
                         on_connected_expect()
                 elif name == "pdrop":
@@ -177,13 +192,13 @@ def run_case(case, R):
                     c = cur()
                     if c is None:
                         continue
-                    wire = c.encrypt(event_msg(json.dumps({"characteristics": [{"aid": 1, "iid": 9, "value": -1}]}).encode()))
+                    wire = c.encrypt(event_msg(json.dumps({"characteristics": [{"aid": 1, "iid": 9, "value": -1}]}).encode(), hdr))
                     c.send_wire(wire[:1 + op[2] % (len(wire) - 1)])
-                    await vtime.settle(loop)
+                    await vtime.settle(loop, 5000)
                     c.close(op[1])
-                    await vtime.settle(loop)
+                    await vtime.settle(loop, 5000)
                     await asyncio.sleep(1)
-                    await vtime.settle(loop)
+                    await vtime.settle(loop, 5000)
                     if p.is_connected:
                         on_connected_expect()
                 elif name == "burst":
@@ -200,17 +215,17 @@ def run_case(case, R):
                                 event_no[0] += 1
                                 chars.append({"aid": a, "iid": i, "value": event_no[0]})
                                 ev[f"{a}.{i}"] = {"value": event_no[0]}
-                            plain += event_msg(json.dumps({"characteristics": chars}, separators=(",", ":")).encode())
+                            plain += event_msg(json.dumps({"characteristics": chars}, separators=(",", ":")).encode(), hdr)
                             expect_all(ev)
                         elif kind == "empty":
-                            plain += event_msg(b"")
+                            plain += event_msg(b"", hdr)
                         elif kind == "text":
-                            plain += event_msg(body[1].encode())
+                            plain += event_msg(body[1].encode(), hdr)
                         elif kind == "bytes":
-                            plain += event_msg(bytes(body[1]))
+                            plain += event_msg(bytes(body[1]), hdr)
                     wire = c.encrypt(plain, op[3] if len(op) > 3 else None)
                     c.send_wire(wire, cuts=[x % max(1, len(wire)) for x in op[2]])
-                    await vtime.settle(loop)
+                    await vtime.settle(loop, 5000)
                     if c is not cur() or not p.is_connected:
                         R.fail("C12.event-breaks-connection", f"{where}: the connection went down while handling an event burst "
                                f"(fatal={c.t.fatal!r:.200})", exc=type(c.t.fatal).__name__ if c.t.fatal else "none")
@@ -259,18 +274,24 @@ OP = st.one_of(
     st.tuples(st.just("adv"), st.sampled_from([0.1, 5, 61])).map(list),
     st.tuples(st.just("offsub"), IDSETS, st.sampled_from([0.5, 5, 30])).map(list),
     st.tuples(st.just("pdrop"), st.sampled_from(["fin", "reset"]), st.integers(0, 200)).map(list),
+    st.tuples(st.just("subbig"), st.sampled_from([1, 2]), st.sampled_from([30, 40, 70, 130])).map(list),
 )
 
 
 @st.composite
 def histories(draw):
-    return {"k": draw(st.integers(0, 30)), "ops": draw(st.lists(OP, min_size=2, max_size=18))}
+    return {"k": draw(st.integers(0, 30)), "ops": draw(st.lists(OP, min_size=2, max_size=18)),
+            "hdr": draw(st.sampled_from(["title", "title", "lower", "upper", "mixed"]))}
 
 
 def enum_fixed(tier):
     v = ["valid", [[1, 9]]]
     v2 = ["valid", [[1, 9], [2, 10]]]
     bad = [["empty"], ["text", "not json"], ["bytes", b"\xff\xfe"], ["text", "{"], ["bytes", b"\xc3"]]
+    for hdr in ("lower", "upper", "mixed"):
+        yield {"hdr": hdr, "ops": [["sub", [[1, 9], [2, 10]]], ["burst", [v, v2], [7]], ["drop", "fin"], ["burst", [v2, ["empty"], v], []]]}
+    for n in (30, 40, 70, 130):
+        yield {"ops": [["subbig", 1, n], ["sub", [[2, 10], [1, 9]]], ["burst", [v2], []], ["drop", "fin"], ["burst", [v], []], ["subbig", 2, n], ["drop", "reset"], ["burst", [v2], []]]}
     for b in bad:
         yield {"ops": [["sub", [[1, 9]]], ["burst", [b, v], []], ["burst", [v, b, v2], [7, 90]], ["burst", [v], []]]}
         yield {"ops": [["addl", "raising"], ["addl", "normal"], ["sub", [[1, 9], [2, 10]]], ["burst", [v, b, v], [3]], ["drop", "fin"], ["burst", [v2], []]]}
